@@ -130,6 +130,11 @@ def build(shape, gin, lists_on='target'):
     rec = {'named': named, 'args': args, 'kw': kw, 'scope': gin.current_scope_str(),
            'n': len(mod.LOG)}
     mod.LOG.append(rec)
+    if shape.get('mutate_scope'):
+      # user code may do what it likes with the list current_scope() hands out
+      handed_out = gin.current_scope()
+      handed_out.append('zz_appended_by_probe')
+      del handed_out[:1]
     return rec
 
   mod._record = _record
